@@ -34,6 +34,9 @@ impl PrintState {
         self.file_handle = 0.into();
         self.format_string = None;
         self.format_string_index = 0;
+        // a separator at the end of another statement (one that failed,
+        // or the one that is calling a function which prints) is not ours
+        self.should_skip_new_line = false;
     }
 
     pub fn get_printer_type(&self) -> PrinterType {
